@@ -32,6 +32,18 @@ COMMON_ASSUME = [
 prop('C17', harness='puremon', floor=5000, batches={'quick': 1, 'thorough': 1},
      assumptions=['Go comparison operators on int and string are the reference order/equality'])
 
+prop('C20', harness='ipipemon', floor=5000, batches={'quick': 1, 'thorough': 1}, stage=True,
+     assumptions=['internal/pipe is built from a staged copy of the working tree (it is outside every go.mod); _test.go files are not staged'])
+
+prop('C19', harness='seqmon', floor=5000, batches={'quick': 1, 'thorough': 1}, stage=True,
+     assumptions=['internal/seq is built from a staged copy of the working tree under its declared import path github.com/fogfish/golem/seq',
+                  'Head/Tail are never applied to an empty sequence (ADT precondition)'])
+
+prop('C18', harness='skipmon', kind='test', floor=5000, batches={'quick': 4, 'thorough': 16}, stage=True,
+     assumptions=['internal/maplike is built from a staged copy of the working tree under its declared import path',
+                  'structure is read through the public fmt.Stringer dump; keys contain no whitespace so the dump parses unambiguously',
+                  'single-threaded use (the structure is not concurrent and the property does not ask)'])
+
 # ---------------------------------------------------------------------------
 
 def log(*a):
